@@ -453,7 +453,7 @@ theorem branch_switch : BranchSwitchStatement := by
   refine ⟨⟨b, s2.index, s2.wd⟩, ?_, rfl, hsync'.wdEntry, hsync'.treeOf, hsync'.status⟩
   unfold switchTo
   have hh : (checkedOut a obsA).head = a := rfl
-  have happ : applyChanges obsB ⟨(checkedOut a obsA).wd, (checkedOut a obsA).index⟩
+  have happ : applyChanges cur obsB ⟨(checkedOut a obsA).wd, (checkedOut a obsA).index⟩
       (applyOrder cur (changes a b)) = (s2, none) := by
     rw [applyOrder_cur, applyChanges_append, happ1]
     exact happ2
